@@ -65,6 +65,10 @@ class ServerConn:
         elif action == "reset":
             c.peer_reset()
             self.lost_at = S.now
+        elif action == "error":
+            c.peer_error(args[0])
+            c.peer_close()
+            self.lost_at = S.now
         elif action == "close":
             data = R.encode(R.CLOSE, args[0])
             self._note_frames(data)
